@@ -270,3 +270,75 @@ fn c10_contract_stubs_faithful() {
     }
     assert!(pos_of_z(&a, 0, 0) == pos_of_z(&b, 0, 0));
 }
+
+// ---- hash deltas with the REAL key arithmetic -----------------------------------------------------------
+// Board-level hash obligations: the mutators change the placement on at most five squares; with
+// hash == spec_hash(before) as precondition, hash' == spec_hash(after) is (by linearity of XOR, terms of
+// unchanged squares cancel) equivalent to
+//     hash' ^ hash == XOR over the touched squares of (KEY(before at s) ^ KEY(after at s))
+//                     ^ KEY(rights/EP/side of before) ^ KEY(rights/EP/side of after)
+// provided nothing outside the touched squares changed.  Both sides are short XOR sums of real table keys.
+pub(crate) fn key_at(p: &sp::Pos, s: u8) -> u64 {
+    let b = sp::bit(s);
+    if p.occ() & b == 0 {
+        0
+    } else {
+        let c = if p.colors[1] & b != 0 { 1 } else { 0 };
+        let pc = p.piece_at(s);
+        if pc < 6 { key_piece(c, pc, s) } else { 0 }
+    }
+}
+pub(crate) fn rest_hash(p: &sp::Pos) -> u64 {
+    let mut h = 0u64;
+    let mut c = 0u8;
+    while c < 2 {
+        let mut w = 0usize;
+        while w < 2 {
+            if p.castle[c as usize][w] < 8 { h ^= key_castle(c, p.castle[c as usize][w]); }
+            w += 1;
+        }
+        c += 1;
+    }
+    if p.ep < 8 { h ^= key_ep(p.ep); }
+    if p.stm == 1 { h ^= key_black(); }
+    h
+}
+fn squares_mask(sq: &[u8; 5]) -> u64 {
+    sp::bit(sq[0]) | sp::bit(sq[1]) | sp::bit(sq[2]) | sp::bit(sq[3]) | sp::bit(sq[4])
+}
+/// placement of p and q identical outside the listed squares
+pub(crate) fn same_outside(p: &sp::Pos, q: &sp::Pos, sq: &[u8; 5]) -> bool {
+    let m = !squares_mask(sq);
+    let mut i = 0;
+    let mut ok = (p.colors[0] ^ q.colors[0]) & m == 0 && (p.colors[1] ^ q.colors[1]) & m == 0;
+    while i < 6 {
+        ok = ok && (p.pieces[i] ^ q.pieces[i]) & m == 0;
+        i += 1;
+    }
+    ok
+}
+pub(crate) fn delta_hash(p: &sp::Pos, q: &sp::Pos, sq: &[u8; 5]) -> u64 {
+    let mut h = rest_hash(p) ^ rest_hash(q);
+    let mut i = 0;
+    while i < 5 {
+        let mut dup = false;
+        let mut j = 0;
+        while j < i {
+            if sq[j] == sq[i] { dup = true; }
+            j += 1;
+        }
+        if !dup { h ^= key_at(p, sq[i]) ^ key_at(q, sq[i]); }
+        i += 1;
+    }
+    h
+}
+/// hash by definition, square-major order (same value as spec_hash: XOR is commutative)
+pub(crate) fn spec_hash_sq(p: &sp::Pos) -> u64 {
+    let mut h = 0u64;
+    let mut s = 0u8;
+    while s < 64 {
+        h ^= key_at(p, s);
+        s += 1;
+    }
+    h ^ rest_hash(p)
+}
